@@ -670,7 +670,7 @@ Definition real_run : R (N * bool * net * (bytes * net)) :=
       let res : bytes * net :=
         if kind =? 0 then (let r := Valve.query (bz_lookup []) 0 (Source None) (Some (mk_gather Enforce Skip false)) t n0 in
                            (show_outcome show_response (fst r), snd r))
-        else if kind =? 1 then (let r := client_query 0 Q3 t n0 in (show_outcome show_qresponse (fst r), snd r))
+        else if (kind =? 1) || (kind =? 8) then (let r := client_query 0 Q3 t n0 in (show_outcome show_qresponse (fst r), snd r))
         else if kind =? 2 then (let r := query_java (fun _ => None) 0 t None n0 in
                                 ((match fst r with Panic 99 => str "ORACLE-MISS" | o => show_outcome show_java o end), snd r))
         else if kind =? 3 then (let r := (do* _ := udp_new 0 t in do* _ := send 0 payload in udp_recv size) n0 in
